@@ -9,7 +9,7 @@ from mc.core import Acc, Hang, horizon
 from mc.props.c16 import CLASS_UNIT, cls
 
 ID = "C14"
-RULE = ("E-INPUT: linear half = the C13 end-point grid x m in {default,1,2,3,5,7,10,20,50,100} through LinearScale.nice(m), every fourth pair also as a three-entry piecewise domain [a, a+0.375(b-a), b]; "
+RULE = ("E-INPUT: linear half = the C13 end-point grid x m in {default,1,2,3,5,7,10,20,50,100} through LinearScale.nice(m), every fourth pair also as a three-entry piecewise domain [a, a+0.375(b-a), b], plus domains whose span is 2.3e-7 .. 4.7e-9 of their magnitude; "
         "time half = start instants (month ends, week/year boundaries of a leap and a non-leap year x 3 times of day, early "
         "instants, a seeded instant) x spans 10 ms..200 y x both orientations x counts {default,2,5,10,20,50} through "
         "TimeScale.nice(m), every third start also as nice(m, skip). Oracle: orientation kept, no end inward, outward move < 2 tick steps (step measured through the "
@@ -73,7 +73,8 @@ def judge_linear(a, b, m, acc=None, mid=None):
     k = math.floor(math.log10(step) + 1e-9)
     lead = min((1, 2, 5, 10), key=lambda c: abs(step / 10 ** k - c))
     stepx = Fraction(lead) * Fraction(10) ** k
-    if abs(Fraction(step) - stepx) > Fraction(1, 10 ** 6) * stepx:
+    # (the measured mean gap of n accumulated ticks is off by up to ~1 ulp of the end points per step)
+    if abs(Fraction(step) - stepx) > Fraction(1, 10 ** 6) * stepx + Fraction(2 * EPS * mag):
         if acc is not None:
             acc.counters["linear_step_not_125"] += 1
         stepx = Fraction(step)
@@ -85,6 +86,19 @@ def judge_linear(a, b, m, acc=None, mid=None):
         if abs(q - round(q)) * (stepx / 10) > tol:
             return "C14:lin-not-round", "%s: end %r is not a multiple of a tenth of the step %r" % (where, v, float(stepx))
     return None
+
+
+def very_narrow_pairs(vals):
+    """Non-degenerate domains whose span is only 2e-7 .. 5e-9 of their magnitude (C14 is stated for all non-degenerate
+    domains; the tick step is still 1e5 .. 1e7 units in the last place of the end points)."""
+    for v in vals:
+        if v == 0:
+            continue
+        for rel in (2.3e-7, 3.1e-8, 1.9e-8, 4.7e-9):
+            w = v * (1 + rel)
+            if w != v:
+                yield v, w
+                yield w, v
 
 
 # ------------------------------------------------------------------ time
@@ -174,7 +188,7 @@ def run_shard(shard):
     acc = Acc()
     if shard["kind"] == "lin":
         vals = lingrid.values(shard["tier"]) if shard["vals"] == "grid" else lingrid.seeded_values(shard["seed"])
-        for i, (a, b) in enumerate(lingrid.pairs(vals)):
+        for i, (a, b) in enumerate(itertools.chain(lingrid.pairs(vals), very_narrow_pairs(vals))):
             if i % shard["mod"] != shard["rem"]:
                 continue
             acc.states += 1
